@@ -4,10 +4,38 @@ Nothing here decides anything: TLC accepts or rejects the recorded events; these
 parallel, attach the case context to every event (so a rejected event can be labelled and replayed) and feed the
 trace to vf.trace.check_trace in chunks that keep TLC's memory bounded.
 """
-import os
+import os, re
 from . import tlc, trace
 from . import run as hrun
 from .core import InfraError
+
+
+_RE_ACT = re.compile(r"^<(\w+) line \d+, col \d+ to line \d+, col \d+ of module \w+(?: \([\d ]+\))?>: (\d+):(\d+)", re.M)
+
+
+def action_counts(r):
+    """per-action (distinct, generated) from TLC's coverage output, including the lines that carry a source range suffix
+    (tlc.TlcResult.coverage misses those)"""
+    out = {}
+    for m in _RE_ACT.finditer(r.out):
+        d, g = int(m.group(2)), int(m.group(3))
+        a = out.get(m.group(1), (0, 0))
+        out[m.group(1)] = (max(a[0], d), max(a[1], g))
+    return out
+
+
+def never_taken(r, expected):
+    """actions of `expected` that TLC never generated a successor for (vacuity check)"""
+    c = action_counts(r)
+    return [a for a in expected if c.get(a, (0, 0))[1] == 0]
+
+
+def par(n):
+    """parallelism actually used: n, capped by VERIF_MAXPAR (shared machines)"""
+    try:
+        return max(1, min(n, int(os.environ.get("VERIF_MAXPAR", "16"))))
+    except ValueError:
+        return n
 
 
 def drive(ctx, exe, rd, prefix, seed, total, parts, extra=(), timeout=1500, workers=8):
@@ -22,7 +50,7 @@ def drive(ctx, exe, rd, prefix, seed, total, parts, extra=(), timeout=1500, work
         jobs.append([os.path.join(rd, "%s%d.ndjson" % (prefix, i)), seed, lo, cnt] + list(extra))
         lo += cnt
         i += 1
-    res = hrun.run_many(exe, jobs, timeout=timeout, workers=workers)
+    res = hrun.run_many(exe, jobs, timeout=timeout, workers=par(workers))
     events, maxima = [], {}
     for j, h in zip(jobs, res):
         if h.timed_out:
